@@ -130,6 +130,10 @@ pub trait Property: Send + Sync + 'static {
     fn max_shrink_iters(&self, tier: Tier) -> u32 {
         tier.pick(2000, 20000)
     }
+    /// verdict for a panic that escaped `check` (default: the case is not judged; crash-freedom properties override this)
+    fn on_uncaught_panic(&self, msg: &str) -> Verdict {
+        Verdict::Skip(format!("panic:{}", panic_site(msg)))
+    }
     /// simpler variants of a failing case, tried greedily after proptest's own shrinking (e.g. text ddmin)
     fn simplify(&self, _case: &Self::Case) -> Vec<Self::Case> {
         vec![]
@@ -260,8 +264,14 @@ fn eval_case<P: Property>(p: &P, exec: &mut Exec<P>, case: &P::Case, st: &mut St
     match exec {
         Exec::Direct(local) => {
             let mut obs = Obs::default();
-            let v = p.check(case, local, &mut obs);
-            (v, obs)
+            match catch(|| p.check(case, local, &mut obs)) {
+                Ok(v) => (v, obs),
+                Err(msg) => {
+                    // the check itself did not catch a panic of the code under test: rebuild the per-thread state
+                    *local = p.local();
+                    (p.on_uncaught_panic(&msg), Obs::default())
+                }
+            }
         }
         Exec::Child(child) => {
             let req = serde_json::to_string(case).expect("case serialises");
@@ -829,6 +839,9 @@ pub fn install_quiet_hook() {
             } else {
                 "panic".to_string()
             };
+            if std::env::var("VERIF_DEBUG_PANIC").is_ok() {
+                eprintln!("PANIC {msg} @ {loc}");
+            }
             PANIC_LOG.with(|l| {
                 let mut l = l.borrow_mut();
                 if l.len() < 64 {
